@@ -16,7 +16,7 @@ theorem zeroValue_empty {ie : IE} {v : Value} (h : zeroValue ie = .ok v) : value
   cases hty : ie.ty <;> simp [hty] at h <;> subst h <;> rfl
 
 theorem zeroElems_spec : ∀ (ies : List IE) (es : List Elem), zeroElems ies = some es →
-    es.map (·.1) = ies ∧ ∀ e ∈ es, valueEmpty e.2 = true
+    es.map (·.1) = ies ∧ ∀ e ∈ es, elemEmpty e = true
   | [], es, h => by simp [zeroElems] at h; subst h; simp
   | ie :: t, es, h => by
     unfold zeroElems at h
@@ -32,7 +32,7 @@ theorem zeroElems_spec : ∀ (ies : List IE) (es : List Elem), zeroElems ies = s
         intro e he
         simp at he
         rcases he with rfl | he
-        · exact zeroValue_empty hz
+        · simp [elemEmpty, zeroValue_empty hz]
         · exact h2 e he
     | err => simp [hz] at h
     | panic => simp [hz] at h
